@@ -184,10 +184,12 @@ def run(ctx):
                 if pt is None or not pt[0].startswith('@create_non_systematic_vand_matrix'):
                     continue
                 ab = affine_in_t(pt[1])
-                if ab is None or ab[1] != Poly.const(4):
+                if ab is None or ab[1] not in (Poly.const(4), Poly.const(-4)):
                     continue                      # diagonal / column walks are not row walks
                 hg = [g_ for g_ in L.guards() if g_.block is L.header]
                 T = L.trip(hg[0]) if len(hg) == 1 else None
+                if ab[1] == Poly.const(-4) and T is not None:
+                    ab = (ab[0] - (T - Poly.const(1)) * 4, Poly.const(4))        # the same entries, walked from the far end
                 a4 = Poly({k_: v // 4 for k_, v in ab[0].items()}) if all(v % 4 == 0 for v in ab[0].values()) else None
                 nw += 1
                 inst = f'{fname[1:]}: row walk at line {ld.line}'
@@ -339,6 +341,11 @@ def run(ctx):
             ndp += 1
             j_ = parity_slot(c_.ops[1])
             rowr, rowo = pce.ptr(c_.ops[2])
+            rd_ = ef.defs.get(strip_ptr_casts(ef, c_.ops[2]))
+            if rd_ is not None and rd_.op == 'call' and rd_.callee == '@get_matrix_row' and len(rd_.ops) >= 3:
+                # the row through the accessor: get_matrix_row(matrix, row, cols) is &matrix[row * cols]
+                rowr, base_o = pce.ptr(rd_.ops[0])
+                rowo = base_o + pce.val(rd_.ops[1]) * pce.val(rd_.ops[2]) * 4
             rowi = _its4j(LSe, c_.bb, PolyCtx.div(rowo, 4))
             inst = f'rs_vand encode: region_dot_product at line {c_.line}'
             ok_ = (strip_ptr_casts(ef, c_.ops[0]) == pn[1] and j_ is not None and rowr == 'arg0' and rowi == (Ke + j_) * Ke
